@@ -87,6 +87,7 @@ word zzPowerModW(register word a, register word b, register word mod,
 	// раскладка stack
 	powers = (word*)stack;
 	// powers <- малые нечетные степени a
+	a %= mod;
 	prod = a;
 	prod *= a, prod %= mod, powers[0] = (word)prod;
 	prod *= a, prod %= mod, powers[1] = (word)prod;
